@@ -208,11 +208,13 @@ func decodeString(src *bufio.Reader, noQuotes bool) []byte {
 	length := decodeIntAdditionalType(src, minor)
 	len := int(length)
 	pbs := readNBytes(src, len)
-	result = append(result, pbs...)
-	if noQuotes {
-		return result
+	if !noQuotes {
+		// The bytes become the content of a JSON string: escape them the way
+		// text strings are escaped, or the output is not valid JSON.
+		return append(decodeStringComplex(result, string(pbs), 0), '"')
 	}
-	return append(result, '"')
+	result = append(result, pbs...)
+	return result
 }
 func decodeStringToDataUrl(src *bufio.Reader, mimeType string) []byte {
 	pb := readByte(src)
